@@ -151,8 +151,17 @@ impl<'a, P: ?Sized + PathImpl> PathMutImpl<'a, P> {
 				i -= 1
 			}
 
-			replace(self.buffer, i..self.end, &[]);
-			self.end = i;
+			if i == start && self.buffer[i] == b'/' {
+				// AMBIGUITY: Only the empty first segment remains, which
+				//            would disappear (`//foo` would become `/`).
+				// SOLUTION:  We shield it with a `.` segment (`/./`).
+				replace(self.buffer, i..self.end, b"./");
+				self.end = i + 2;
+			} else {
+				replace(self.buffer, i..self.end, &[]);
+				self.end = i;
+			}
+
 			true
 		} else {
 			false
